@@ -39,6 +39,7 @@ struct fs_counters
   long io_eio = 0, io_short = 0, io_eintr = 0;	// fired
   long closes = 0;
   long close_ebadf = 0;		// close() of a tracked fd number returned EBADF
+  long close_ebadf_in_libs = 0;	// same, but both closes came from a shared library
   long double_close = 0;	// tracked fd closed twice without reopen
 };
 
